@@ -246,11 +246,33 @@ fn offset_to_position(input: &str, offset: usize) -> Position {
 struct Parser {
     tokens: Vec<Spanned>,
     pos: usize,
+    /// Current nesting depth of expressions and types (the parser is recursive)
+    depth: usize,
 }
+
+/// Expressions and types nested deeper than this are refused instead of
+/// overflowing the stack.
+const MAX_NESTING: usize = 1000;
 
 impl Parser {
     fn new(tokens: Vec<Spanned>) -> Self {
-        Parser { tokens, pos: 0 }
+        Parser {
+            tokens,
+            pos: 0,
+            depth: 0,
+        }
+    }
+
+    /// Enter one more level of nesting, or fail if the input is nested too deeply
+    fn descend(&mut self) -> Result<(), ErrorSet> {
+        if self.depth >= MAX_NESTING {
+            return Err(ErrorSet::single(
+                self.current_position(),
+                Error::ParseFailed(Some("expression nested too deeply".to_owned())),
+            ));
+        }
+        self.depth += 1;
+        Ok(())
     }
 
     fn peek(&self) -> Option<&Token> {
@@ -396,6 +418,13 @@ fn parse_arrow(p: &mut Parser) -> Result<(Option<Type>, Option<Type>), ErrorSet>
 
 /// Parse an expression
 fn parse_expr<J: Jet + 'static>(p: &mut Parser) -> Result<Expression, ErrorSet> {
+    p.descend()?;
+    let res = parse_expr_inner::<J>(p);
+    p.depth -= 1;
+    res
+}
+
+fn parse_expr_inner<J: Jet + 'static>(p: &mut Parser) -> Result<Expression, ErrorSet> {
     let position = p.current_position();
 
     match p.peek().cloned() {
@@ -658,6 +687,13 @@ fn parse_literal(p: &mut Parser) -> Result<(Vec<u8>, usize, Position), ErrorSet>
 
 /// Parse a type expression, left-associative for both + and *
 fn parse_type(p: &mut Parser) -> Result<Option<Type>, ErrorSet> {
+    p.descend()?;
+    let res = parse_type_inner(p);
+    p.depth -= 1;
+    res
+}
+
+fn parse_type_inner(p: &mut Parser) -> Result<Option<Type>, ErrorSet> {
     let mut lhs = parse_type_postfix(p)?;
     loop {
         if p.peek() == Some(&Token::Plus) {
